@@ -87,7 +87,7 @@ out.append('Tally, all rounds: ' + tally(lambda n: True) + '\n')
 out.append('Tally, round 1 (`_1`, `_2`: the obvious sites): ' + tally(lambda n: rnd(n) == 1) + '\n')
 out.append('Tally, round 2 (`_3`, `_4`: "less obvious sites", all run blind first): ' + tally(lambda n: rnd(n) == 2) + '\n')
 if any(rnd(n) == 3 for pid in seeds for n, _ in seeds[pid]):
-    out.append('Tally, round 3 (`_5`, `_6`: a third pair for the properties whose round-2 pair was missed entirely, all run blind first): ' + tally(lambda n: rnd(n) == 3) + '\n')
+    out.append('Tally, round 3 (`_5`, `_6`: a third pair for twelve properties — first those whose round-2 pair was missed entirely, then four thin ones — all run blind first): ' + tally(lambda n: rnd(n) == 3) + '\n')
 
 txt = '\n'.join(out)
 p = f'{V}/DESIGN.md'
